@@ -1,7 +1,8 @@
 (* C16 — generated validation is sound w.r.t. declared constraints (PARTIAL: integer range bounds and the nested
    fix point; lengths, patterns, formats and float ranges are arena observations against a JSON Schema oracle). *)
 From Coq Require Import List Bool ZArith NArith Lia Relations.
-From OAS Require Import Model.Boxing Proof.Boxing Model.Validation Proof.Validation.
+From Coq Require Import String.
+From OAS Require Import Model.Boxing Proof.Boxing Model.Validation Proof.Validation Gen.IntRender.
 Import ListNotations.
 Local Open Scope Z_scope.
 
@@ -47,6 +48,21 @@ Check C16_range_sound : forall p b v, in_prim p v ->
   sat (translate p b) v = true -> sat b v = true.
 Check C16_nested_reaches : forall ss t s,
   In t (direct_from 0 ss) -> clos_refl_trans N (edge (ref_edges ss)) t s -> In s (fst (validated ss)).
+
+(* tie to the source: Gen/IntRender.v is regenerated from ast/types.rs render_integer on every run (the translator
+   accepts only `value <= MIN => MIN` / `value >= MAX => MAX` guards and fails closed otherwise); the primitives it
+   clamps and their limits must be the model's *)
+Definition rust_limit (s : string) : option Z :=
+  if String.eqb s "i8::MIN" then Some (-128) else if String.eqb s "i8::MAX" then Some 127
+  else if String.eqb s "i16::MIN" then Some (-32768) else if String.eqb s "i16::MAX" then Some 32767
+  else if String.eqb s "i32::MIN" then Some (-2147483648) else if String.eqb s "i32::MAX" then Some 2147483647
+  else None.
+Definition model_prims : list (string * prim) := [("I8", i8); ("I16", i16); ("I32", i32)]%string.
+Example C16_clamp_table_from_source :
+  map (fun e => (fst (fst e), rust_limit (snd (fst e)), rust_limit (snd e))) render_integer_clamped
+  = map (fun e => (fst e, Some (lo (snd e)), Some (hi (snd e)))) model_prims
+  /\ render_integer_unclamped = ["I64"]%string.
+Proof. vm_compute. split; reflexivity. Qed.
 
 (* non-vacuity: Top{inner: Inner, wrap: Wrap} Inner{v <= 9} Wrap{deep: Inner, self: Wrap} Plain{} *)
 Example C16_nonvacuous :
